@@ -916,6 +916,11 @@ def run_shard(rec):
     reentrancy(rec, ts, 6 if quick else 40)
     embedding(rec)
     name_reuse(rec)
+    if rec.shard == 0:
+        # a name compiled with other descriptions (and with failing Grammar() calls) before it is
+        # extended: the scenario is shared with C11
+        from . import c11
+        c11.name_reuse(rec)
     digests = set()
     rounds = 3 if quick else 20
     for r in range(rounds):
@@ -934,6 +939,9 @@ def run_shard(rec):
 def replay(rec, rep):
     import ast
     case = rep['case']
+    if case.get('kind') == 'name-reuse':
+        from . import c11
+        return c11.name_reuse(rec)
     # a single call against a fresh module reproduces only history-independent failures; the whole
     # shard workload is re-run (seeded) to reproduce history / schedule dependent ones
     run_shard(rec)
